@@ -734,7 +734,7 @@ fn exec_case(ops: &[String], run: &mut Run) {
                 let line = format!("{} bloom={}", raw.join(" "), hex(bloom.as_bytes()));
                 run.end_op_as(&line, "ok");
             }
-            Some("req") => {
+            Some("req" | "reqb") => {
                 let r = &words[1..];
                 let ip: IpAddr = kv(r, "ip").expect("ip").parse().expect("ip parse");
                 let recv = u64hex(kv(r, "recv").expect("recv"));
@@ -1485,6 +1485,8 @@ fn gen_plain_v5(rng: &mut Rng) -> Vec<u8> {
 struct NtsCtx {
     sess: Session,
     cookie: Vec<u8>,
+    /// byte mode: the ideal-AEAD table entry of the encryption that made `cookie` (`key;nonce;aad;ct;pt`)
+    cookie_seal: String,
 }
 
 fn gen_session(rng: &mut Rng, keyset: &KeySet, file: &[u8], nkeys: usize) -> NtsCtx {
@@ -1506,10 +1508,24 @@ fn gen_session(rng: &mut Rng, keyset: &KeySet, file: &[u8], nkeys: usize) -> Nts
     } else {
         keyset.encode_cookie(&dec)
     };
-    NtsCtx { sess, cookie }
+    // table entry of the cookie's sealing: key = the key of the file its id names, nonce / ciphertext read back
+    let hx = |b: &[u8]| if b.is_empty() { "-".to_string() } else { hex(b) };
+    let id_offset = u32::from_be_bytes(file[8..12].try_into().unwrap());
+    let ki = u32::from_be_bytes(cookie[0..4].try_into().unwrap()).wrapping_sub(id_offset) as usize;
+    let cl = u16::from_be_bytes([cookie[4], cookie[5]]) as usize;
+    let mut pt = sess.alg.to_be_bytes().to_vec();
+    pt.extend_from_slice(&sess.s2c);
+    pt.extend_from_slice(&sess.c2s);
+    let cookie_seal = format!("{};{};-;{};{}", hx(&file[20 + 64 * ki..20 + 64 * (ki + 1)]), hx(&cookie[6..22]), hx(&cookie[22..22 + cl]), hx(&pt));
+    NtsCtx { sess, cookie, cookie_seal }
 }
 
 thread_local! {
+    /// byte mode: the ideal-AEAD table entries (`key;nonce;aad;ct;pt`) of the encryptions made for the request
+    /// under construction
+    static SEALS: std::cell::RefCell<Vec<String>> = const { std::cell::RefCell::new(Vec::new()) };
+    /// byte mode streams emit `reqb` ops
+    static BYTE_MODE: std::cell::Cell<bool> = const { std::cell::Cell::new(false) };
     /// corpus cases: force the number of leading unknown fields of `gen_nts` (no identifier then)
     static FORCE_LEAD: std::cell::Cell<Option<usize>> = const { std::cell::Cell::new(None) };
     /// corpus cases: force the nonce-length choice of `gen_nts`
@@ -1627,6 +1643,15 @@ fn gen_nts(rng: &mut Rng, v5: bool, ctx: &NtsCtx, id_offset: u32, nkeys: usize) 
     };
     let nonce = rng.bytes(nonce_len);
     let mut ct = siv_encrypt(&ctx.sess.c2s, &m, &nonce, &pt);
+    {
+        let hx = |b: &[u8]| if b.is_empty() { "-".to_string() } else { hex(b) };
+        let e = format!("{};{};{};{};{}", hx(&ctx.sess.c2s), hx(&nonce), hx(&m), hx(&ct), hx(&pt));
+        SEALS.with(|v| {
+            let mut v = v.borrow_mut();
+            v.push(ctx.cookie_seal.clone());
+            v.push(e);
+        });
+    }
     match rng.below(16) {
         0 => {
             let i = rng.usize(0, ct.len() - 1);
@@ -1784,6 +1809,7 @@ fn gen_case_with(rng: &mut Rng, idx: u64, malformed: bool, hostile_info: bool) -
     let ctx = gen_session(rng, &keyset, &file, nkeys);
     let mut prev: Option<String> = None;
     for k in 0..nreq {
+        SEALS.with(|v| v.borrow_mut().clear());
         let mut sess_used = false;
         let msg = if !malformed && k == 0 && witness(idx).is_some() {
             witness(idx).unwrap()
@@ -1884,8 +1910,11 @@ fn gen_case_with(rng: &mut Rng, idx: u64, malformed: bool, hostile_info: bool) -
         } else {
             ("-".into(), "-".into(), "0".into())
         };
+        let byte_mode = BYTE_MODE.with(|c| c.get());
+        let seals = SEALS.with(|v| if v.borrow().is_empty() { "-".to_string() } else { v.borrow().join(",") });
         ops.push(format!(
-            "req ip={} recv={:016x} now={:016x} buf={} s2c={} c2s={} alg={} msg={}",
+            "{} ip={} recv={:016x} now={:016x} buf={} s2c={} c2s={} alg={} msg={}{}",
+            if byte_mode { "reqb" } else { "req" },
             ip,
             recv,
             now,
@@ -1893,7 +1922,8 @@ fn gen_case_with(rng: &mut Rng, idx: u64, malformed: bool, hostile_info: bool) -
             s2c,
             c2s,
             alg,
-            hex(&msg)
+            hex(&msg),
+            if byte_mode { format!(" seals={}", seals) } else { String::new() }
         ));
         // the synchronisation state changes between two requests to the SAME server (the daemon's system task
         // writes the shared state while the server task lives on): stratum, leap, reference id, root delay …
@@ -1932,6 +1962,15 @@ fn entry() {
             |rng, idx, _run| gen_case_with(rng, idx, false, true),
             exec_case,
         ),
+        "bytes" => {
+            BYTE_MODE.with(|c| c.set(true));
+            common::drive(
+                name,
+                "byte mode: as main (one case in four as malformed), but the model side is given the request BYTES and the ideal-AEAD table entries of the encryptions the generator made (cookie under the key-set key, authenticator under c2s); it parses them with the wire parser model, derives the request record with reqOf, cross-checks it with the record the harness derived from the real parser (record-mismatch) and runs handle on its own record",
+                |rng, idx, _run| gen_case_with(rng, idx, idx % 4 == 3, false),
+                exec_case,
+            )
+        }
         other => panic!("unknown VERIF_STREAM kind {:?}", other),
     }
 }
